@@ -393,7 +393,7 @@ HARNESSES = [
             cases={'quick': [{'bx': 3.0}, {'bx': 3.0, 'kmax': 1, 'sol': 1, 'dz': 4}],
                    'thorough': [{'bx': 3.0}, {'bx': 40.0, 'dz': 1}, {'bx': 3.0, 'kmax': 1, 'sol': 1, 'dz': 4},
                                 {'bx': 3.0, 'kmax': 1, 'sol': 2, 'dz': 4}]},
-            budget={'quick': {'wall_s': 300, 'query_timeout_ms': 15000}}),
+            budget={'quick': {'wall_s': 300, 'query_timeout_ms': 15000, 'light_decide': True}}),
 ]
 
 _G = [{'cls': c, 'z': z, 'direct': dr, 'theta0': t}
@@ -403,7 +403,7 @@ _G = [{'cls': c, 'z': z, 'direct': dr, 'theta0': t}
 HARNESSES.append(
     Harness('attenuation-graded', h_attenuation_graded, _mods, encodes=_enc, twins=('growing',),
             cases={'quick': _G[:4], 'thorough': _G + [dict(g, dz=10.0) for g in _G]},
-            budget={'quick': {'wall_s': 300, 'query_timeout_ms': 15000}}))
+            budget={'quick': {'wall_s': 300, 'query_timeout_ms': 15000, 'light_decide': True}}))
 
 BOUNDS = {
     'quick': {'signals': '2-3 samples symbolic in [-1,1]', 'attenuation': 'an arbitrary function '
